@@ -26,9 +26,21 @@ func methodOf(i *interpreter, t types.Type, name string) *ssa.Function {
 type piece struct {
 	s   string
 	sym bool
+	it  string // integer term when this piece is the decimal rendering of an integer
 }
 
 func joinPieces(ps []piece) value {
+	ps = normPieces(ps)
+	v := joinPiecesRaw(ps)
+	if s, ok := v.(symStr); ok {
+		if _, known := strStruct[s.t]; !known {
+			strStruct[s.t] = ps
+		}
+	}
+	return v
+}
+
+func joinPiecesRaw(ps []piece) value {
 	anySym := false
 	for _, p := range ps {
 		if p.sym {
@@ -66,7 +78,7 @@ func joinPieces(ps []piece) value {
 }
 
 func symIntToStr(t string) string {
-	return "(ite (< " + t + " 0) (str.++ \"-\" (str.from_int (- " + t + "))) (str.from_int " + t + "))"
+	return regIntString(t)
 }
 
 // formatOne renders one operand for the given verb.
